@@ -64,14 +64,22 @@ def main(tier):
     # E1: each view reads exactly the slot vector
     prog = facts.load("dev", None)
     AR = "crate::arena::Arena<T>::"
-    for name, last, inner in (("count", "alloc::vec::Vec::<T, A>::len", None), ("iter", "core::slice::<impl [T]>::iter", None),
-                              ("as_slice", "alloc::vec::Vec::<T, A>::as_slice", None), ("capacity", "alloc::vec::Vec::<T, A>::capacity", None)):
+    VIEW_OK = {
+        "count": ("alloc::vec::Vec::<T, A>::len", "core::slice::<impl [T]>::len"),
+        "iter": ("core::slice::<impl [T]>::iter", "<&'a alloc::vec::Vec<T, A> as core::iter::traits::collect::IntoIterator>::into_iter", "core::slice::iter::<impl core::iter::traits::collect::IntoIterator for &'a [T]>::into_iter"),
+        "as_slice": ("alloc::vec::Vec::<T, A>::as_slice", "<alloc::vec::Vec<T, A> as core::ops::deref::Deref>::deref", "<alloc::vec::Vec<T, A> as core::ops::index::Index<I>>::index",
+                     "<alloc::vec::Vec<T, A> as core::convert::AsRef<[T]>>::as_ref", "<alloc::vec::Vec<T, A> as core::borrow::Borrow<[T]>>::borrow"),
+        "capacity": ("alloc::vec::Vec::<T, A>::capacity",),
+    }
+    PASSTHROUGH = ("Deref>::deref", "::as_slice", "AsRef<[T]>>::as_ref", "Borrow<[T]>>::borrow")
+    for name, finals in VIEW_OK.items():
+        last = finals[0]
         f = prog.fns.get(AR + name)
         if not run.ob("views", "Arena::%s exists" % name, f is not None, key="views|Arena::%s missing" % name):
             continue
         cs = [(rules.callee_name(t["callee"]), t) for _, t in prog.calls(f)]
         names = [c[0] for c in cs]
-        ok = names[-1:] == [last] and all("Deref" in n or n == last for n in names)
+        ok = len(names) >= 1 and names[-1] in finals and all(n in finals or any(n.endswith(p_) for p_ in PASSTHROUGH) for n in names)
         run.ob("views", "Arena::%s = %s on self.nodes" % (name, last.rsplit("::", 1)[-1]), ok, key="views|Arena::%s is not %s of the slot vector" % (name, last.rsplit("::", 1)[-1]), detail=names, nontrivial=("view", name), sample=True)
         org = set()
         for _, t in cs:
